@@ -1265,6 +1265,19 @@ def veq(ex, a, b):
         if a.box is b.box and a.path == b.path:
             return z3.BoolVal(True)
         return veq(ex, ex.get_at(None, a.box, a.path), ex.get_at(None, b.box, b.path))
+    from e2 import strmodel as _sm
+    if isinstance(a, (_sm.Text, _sm.StrBuf)) and isinstance(b, (_sm.Text, _sm.StrBuf)):
+        ca = a.chars() if isinstance(a, _sm.Text) else a.chars
+        cb = b.chars() if isinstance(b, _sm.Text) else b.chars
+        if ca is None or cb is None:
+            return z3.BoolVal(a is b)
+        if len(ca) != len(cb):
+            return z3.BoolVal(False)
+        return z3.And(*[x == y for x, y in zip(ca, cb)]) if ca else z3.BoolVal(True)
+    if isinstance(a, _sm.GhostBits) and isinstance(b, _sm.GhostBits):
+        if len(a.bits) != len(b.bits):
+            return z3.BoolVal(False)
+        return z3.And(*[x == y for x, y in zip(a.bits, b.bits)]) if a.bits else z3.BoolVal(True)
     if isinstance(a, Struct) and isinstance(b, Struct):
         keys = set(a.fields) | set(b.fields)
         cs = []
